@@ -359,6 +359,12 @@ func (svr *Server) handleConnection(c io.Closer) (svc *service, err error) {
 	}
 
 	defer func() {
+		// This runs in its own goroutine per connection: a panic here (for
+		// instance in the CONNECT decoder) must not take the broker down.
+		if r := recover(); r != nil {
+			log.Errorf("Recovering from panic while accepting a connection: %v", r)
+			svc, err = nil, fmt.Errorf("service: panic while accepting a connection: %v", r)
+		}
 		if err != nil {
 			c.Close()
 		}
